@@ -392,6 +392,23 @@ impl Check for C08 {
                 }
             }
         });
+        // many turns in the same sense: winding numbers beyond 8-bit ranges on every row they cross
+        run.bound("many same-sense turns", "130 / 260 coincident full-turn arcs (r 4) and a coil of 130 arcs with radii 2..5, both senses, NonZero and EvenOdd, fill and clip on 12x12".to_string());
+        run.par(6, |s, l| {
+            let n = if s % 3 == 1 { 260 } else { 130 };
+            let sw = if s / 3 == 0 { 2.0 * pi } else { -2.0 * pi };
+            let mut ops = Vec::new();
+            for i in 0..n {
+                let r = if s % 3 == 2 { 2.0 + 3.0 * i as f32 / n as f32 } else { 4.0 };
+                ops.push(POp::A(6.0, 6.0, r, 0.0, sw));
+                ops.push(POp::Z);
+            }
+            for eo in [false, true] {
+                for clip in [false, true] {
+                    account(run, 36_000 + s, l, &Case { w: 12, path: PathSpec { evenodd: eo, ops: ops.clone() }, xf: IDENT, clip, pre: false }, false);
+                }
+            }
+        });
         // large curves on 36x36
         let gl = grid(&PTS5L);
         let gl_q = grid(&[-6., 18., 42.]);
